@@ -62,12 +62,12 @@ CONFIGS = [
     _c("SIV", "SIV", "aead", mode="SIV", nonce_len=16, mac_len=16),
     _c("SIV[no-nonce]", "SIV", "aead", mode="SIV", nonce_len=0, mac_len=16),
     _c("CCM[-,-]", "CCM", "aead", mode="CCM", nonce_len=11, mac_len=16, msg_len=None, assoc_len=None),
-    _c("CCM[m21,-]", "CCM", "aead", mode="CCM", nonce_len=11, mac_len=16, msg_len=21, assoc_len=None, xd=1),
-    _c("CCM[-,a21]", "CCM", "aead", mode="CCM", nonce_len=11, mac_len=16, msg_len=None, assoc_len=21, xd=2),
-    _c("CCM[m21,a21]", "CCM", "aead", mode="CCM", nonce_len=11, mac_len=16, msg_len=21, assoc_len=21, xd=2),
-    _c("CCM[m5,a5]", "CCM", "aead", mode="CCM", nonce_len=13, mac_len=8, msg_len=5, assoc_len=5, xd=2),
-    _c("CCM[m0,a0]", "CCM", "aead", mode="CCM", nonce_len=7, mac_len=4, msg_len=0, assoc_len=0, xd=1),
-    _c("CCM[m32,a16]", "CCM", "aead", mode="CCM", nonce_len=12, mac_len=16, msg_len=32, assoc_len=16, xd=2),
+    _c("CCM[m21,-]", "CCM", "aead", mode="CCM", nonce_len=11, mac_len=16, msg_len=21, assoc_len=None, xd=(0, 0)),
+    _c("CCM[-,a21]", "CCM", "aead", mode="CCM", nonce_len=11, mac_len=16, msg_len=None, assoc_len=21, xd=(2, 2)),
+    _c("CCM[m21,a21]", "CCM", "aead", mode="CCM", nonce_len=11, mac_len=16, msg_len=21, assoc_len=21, xd=(2, 2)),
+    _c("CCM[m5,a5]", "CCM", "aead", mode="CCM", nonce_len=13, mac_len=8, msg_len=5, assoc_len=5, xd=(1, 1)),
+    _c("CCM[m0,a0]", "CCM", "aead", mode="CCM", nonce_len=7, mac_len=4, msg_len=0, assoc_len=0, xd=(0, 0)),
+    _c("CCM[m32,a16]", "CCM", "aead", mode="CCM", nonce_len=12, mac_len=16, msg_len=32, assoc_len=16, xd=(1, 1)),
     _c("CBC", "CBC", "classic", mode="CBC"),
     _c("CFB", "CFB", "classic", mode="CFB", segment_size=8),
     _c("CFB[128]", "CFB", "classic", mode="CFB", segment_size=128),
@@ -135,10 +135,9 @@ def plan(tier, seed):
     groups = 6 if q else 12
     for g in range(groups):
         specs.append({"kind": "exhaustive", "classes": OTHER_NAMES[g::groups], "part": 0, "nparts": 1})
-    # random leg
-    for i in range(6 if q else 16):
-        specs.append({"kind": "random", "idx": i, "classes": [c["name"] for c in CONFIGS][i % 3::3] if q else
-                      [c["name"] for c in CONFIGS], "budget_s": 30 if q else 420})
+    # random leg (every shard visits every class, starting at a different offset)
+    for i in range(14 if q else 16):
+        specs.append({"kind": "random", "idx": i * 5, "classes": [c["name"] for c in CONFIGS], "budget_s": 35 if q else 420})
     return specs
 
 
@@ -179,7 +178,7 @@ def build(entry, rng=None):
     fam = entry["fam"]
     cfg = {"aead": _build_aead, "classic": _build_classic, "hash": _build_hash, "xof": _build_xof}[fam](entry, rng)
     cfg.name, cfg.key, cfg.fam = entry["name"], entry["key"], fam
-    cfg.extra_depth = entry["p"].get("xd", 0)
+    cfg.extra_depth = entry["p"].get("xd", (0, 0))
     return cfg
 
 
@@ -642,7 +641,7 @@ def w_exhaustive(cfg, spec, ctx):
     from .lifecycle import sym_str
     A = cfg.alphabet
     k = len(A)
-    depth = _depth(k, ctx.tier, cfg.fam, cfg.extra_depth)
+    depth = _depth(k, ctx.tier, cfg.fam, cfg.extra_depth[0 if ctx.tier == "quick" else 1])
     part, nparts = spec["part"], spec["nparts"]
     if part == 0:
         ctx.count("depth:%s" % cfg.name, depth)
@@ -697,11 +696,14 @@ def w_random(spec, ctx):
 
             def choose(i, model):
                 sym = cfg.rand_symbol(rng, model)
-                if rng.random() < pbias:
-                    for _ in range(5):
-                        if model.classify(sym) in ("ok", "copy"):
-                            break
-                        sym = cfg.rand_symbol(rng, model)
+                biased = rng.random() < pbias
+                for _ in range(6):
+                    k = model.classify(sym)
+                    # open edges end a sequence without a verdict: avoid them; forbidden / length-error calls are
+                    # kept with probability 1 - pbias
+                    if k in ("ok", "copy") or (not biased and k != "skip"):
+                        break
+                    sym = cfg.rand_symbol(rng, model)
                 return sym
             seq, died = drv.run(n, choose, lambda oid, i, nb: rng.randbytes(nb))
             ctx.count("seq:" + cfg.name)
